@@ -28,7 +28,9 @@ from mc.engine import Suite, Out
 PROPERTY = 'C13'
 ASSUMPTIONS = [
     'indices are sorted and duplicate free (any gaps, empty = pd.DatetimeIndex([])); values are floats (and one int column in the frame) without NaN',
-    'bounds are datetime.datetime objects (slice, stitch) or datetime.time objects (time_of_day); date and time-of-day bounds are not mixed in one call',
+    'bounds are datetime.datetime objects (slice, stitch), datetime.time objects (time_of_day), or (suite spellings) the other ways pyg_base.dt reads a date: '
+    'ISO / yyyymmdd strings, datetime.date, np.datetime64, pd.Timestamp, yyyymmdd ints - a day written without a time is midnight of that day; '
+    'date and time-of-day bounds are not mixed in one call',
     "the ' ' (do not cut) bracket is excluded; the tuple spelling df_slice(df, (lb, ub)) is compared with the brackets that the signature of "
     'df_slice declares as default (the statement does not name a default for a single slice); stitching is checked with the default brackets only, '
     "which the statement fixes as '(]'",
@@ -234,6 +236,78 @@ def _where(p, present):
     return 'on-point' if p in present else ('on-missing-day' if p % 2 else 'between')
 
 
+# ------------------------------------------------------------------------------------------------ bounds spelt as strings, dates, ints ...
+
+HALF_N = 6                                           # index points on a half-day grid: midnight and midday of three days
+SPELLS = ['iso', 'compact', 'date', 'np64', 'ts', 'int']
+
+
+def _spell(t, how):
+    """the datetime t as the caller would write it; midday bounds fall back to a spelling that can carry the time"""
+    midnight = t.hour == 0
+    if how == 'iso':
+        return t.strftime('%Y-%m-%d') if midnight else t.strftime('%Y-%m-%d %H:%M:%S')
+    if how == 'compact':
+        return t.strftime('%Y%m%d') if midnight else t.strftime('%Y-%m-%dT%H:%M:%S')
+    if how == 'date':
+        return t.date() if midnight else pd.Timestamp(t)
+    if how == 'np64':
+        return np.datetime64(t)
+    if how == 'ts':
+        return pd.Timestamp(t)
+    if how == 'int':
+        return int(t.strftime('%Y%m%d')) if midnight else t
+    raise ValueError(how)
+
+
+def gen_spellings():
+    for m in range(1 << HALF_N):
+        yield {'pts': [i for i in range(HALF_N) if m >> i & 1]}
+
+
+def check_spellings(case):
+    """a date bound is the date it denotes however it is written: a day given as '2000-01-04' is midnight of that day, not the whole day"""
+    from pyg_base import df_slice
+    out = Out()
+    pts = case['pts']
+    stamps = [BASE + i * H12 for i in pts]
+    subj = _Subject('series', stamps, pts)
+    positions = [None] + list(range(-1, HALF_N + 1))
+    for lp in positions:
+        for up in positions:
+            lt = None if lp is None else BASE + lp * H12
+            ut = None if up is None else BASE + up * H12
+            if lt is None and ut is None:
+                continue
+            on_point = lp in pts or up in pts
+            for how in SPELLS:
+                lb = None if lt is None else _spell(lt, how)
+                ub = None if ut is None else _spell(ut, how)
+                for oc in BRACKETS:
+                    out.sub()
+                    lc, uc = _closed_pair(oc)
+                    keep = [_keep(t, lt, ut, lc, uc) for t in stamps]
+                    label = 'df_slice(series %s, %r, %r, %r)' % ([str(t)[5:13] for t in stamps], lb, ub, oc)
+                    sig = dict(spell=how, oc=oc, lb='none' if lp is None else 'on-point' if lp in pts else 'off-point',
+                               ub='none' if up is None else 'on-point' if up in pts else 'off-point', ub_midnight=ut is not None and ut.hour == 0)
+                    try:
+                        res = df_slice(subj.obj, lb, ub, oc)
+                        out.call()
+                    except Exception as e:
+                        out.viol('slice-raised', '%s raised %s: %s' % (label, type(e).__name__, e), **sig)
+                        subj.rebuild()
+                        continue
+                    subj.compare(out, res, keep, label, sig)
+                    if not subj.untouched():
+                        out.viol('slice-argument-modified', '%s changed its argument to %s' % (label, _show(subj.obj)), **sig)
+                        subj.rebuild()
+                    out.cls('%s:%s' % (how, 'on-point' if on_point else 'off-point'))
+                    # a midnight bound with observations later on that day is where "the day" and "midnight of the day" differ
+                    if any(b is not None and b.hour == 0 and (b + H12) in stamps for b in (lt, ut)):
+                        out.nontrivial('%s|%s|%s|%s' % (lp, up, how, oc))
+    return out
+
+
 # ------------------------------------------------------------------------------------------------ time of day
 
 HOURS = [0, 4, 8, 12, 16, 20]
@@ -287,6 +361,8 @@ def check_tod(case):
     stamps = [datetime.datetime.combine((BASE + (i // 6) * DAY).date(), grid[i % 6]) for i in pts]
     present = set(grid[i % 6] for i in pts)
     subj = _Subject(kind, stamps, pts)
+    default = _default_brackets()
+    spellings = [(oc, oc) for oc in BRACKETS] + ([('tuple', default)] if default in BRACKETS else [])
     for lh in bounds:
         lb = lh
         for uh in bounds:
@@ -294,7 +370,7 @@ def check_tod(case):
             wrap = lb is not None and ub is not None and lb > ub
             on_point = lh in present or uh in present
             cat = 'wrap' if wrap else 'bound-on-point' if on_point else ('unbounded' if lb is None and ub is None else 'bound-between')
-            for oc in BRACKETS:
+            for spell, oc in spellings:
                 out.sub()
                 lc, uc = _closed_pair(oc)
                 if wrap:
@@ -302,11 +378,12 @@ def check_tod(case):
                     keep = [_keep(t.time(), lb, None, lc, uc) or _keep(t.time(), None, ub, lc, uc) for t in stamps]
                 else:
                     keep = [_keep(t.time(), lb, ub, lc, uc) for t in stamps]
-                label = 'df_slice(%s %s, %s, %s, %r)' % (kind, [str(t)[5:13] if not case.get('sub') else str(t)[5:] for t in stamps], lb, ub, oc)
-                sig = dict(oc=oc, kind=kind, wrap=wrap, lb='none' if lh is None else 'on-point' if lh in present else 'off-point',
+                label = 'df_slice(%s %s, %s)' % (kind, [str(t)[5:13] if not case.get('sub') else str(t)[5:] for t in stamps],
+                                                 '(%s, %s)' % (lb, ub) if spell == 'tuple' else '%s, %s, %r' % (lb, ub, oc))
+                sig = dict(oc=oc, kind=kind, wrap=wrap, spell='tuple' if spell == 'tuple' else 'args', lb='none' if lh is None else 'on-point' if lh in present else 'off-point',
                            ub='none' if uh is None else 'on-point' if uh in present else 'off-point', empty_index=not pts)
                 try:
-                    res = df_slice(subj.obj, lb, ub, oc)
+                    res = df_slice(subj.obj, (lb, ub)) if spell == 'tuple' else df_slice(subj.obj, lb, ub, oc)
                     out.call()
                 except Exception as e:
                     out.viol('tod-raised', '%s raised %s: %s' % (label, type(e).__name__, e), **sig)
@@ -316,7 +393,7 @@ def check_tod(case):
                 if not subj.untouched():
                     out.viol('tod-argument-modified', '%s changed its argument to %s' % (label, _show(subj.obj)), **sig)
                     subj.rebuild()
-                out.cls('wrap' if wrap else 'tod:%s:%s' % (oc, cat))
+                out.cls('wrap' if wrap else 'tod:%s:%s' % (spell, cat))
                 if pts and not any(keep):
                     out.cls('empty-result')
                 if wrap or on_point:
@@ -553,6 +630,11 @@ def suites(tier, seed):
               rule='every subset of %d consecutive days as float Series and as 2-column frame x lb, ub in {None, before, on each day, midday between, after}^2 '
                    '(incl. lb > ub) x 4 brackets + the tuple spelling with the default brackets; non-trivial = a bound coincides with a timestamp of the index' % N,
               bounds=dict(days=N, bound_positions=2 * N + 2, brackets=4)),
+        Suite('spellings', gen_spellings, check_spellings,
+              rule='every subset of a 6-point half-day grid (midnight and midday of 3 days) as Series x lb, ub in {None, before, each grid point, after}^2 '
+                   'x 4 brackets x the bounds written as ISO string, yyyymmdd string, datetime.date, np.datetime64, pd.Timestamp, yyyymmdd int '
+                   '(midday bounds: the nearest spelling that carries a time); non-trivial = a midnight bound with observations at midday of that day',
+              bounds=dict(points=HALF_N, bound_positions=HALF_N + 3, brackets=4, spellings=len(SPELLS))),
         Suite('time_of_day', lambda: gen_tod(tier), check_tod,
               rule=('subsets of a 2-day x 6-hour grid (%s) x lb, ub in {None, 00:00, 02:00 .. 22:00}^2 as datetime.time x 4 brackets; '
                     'non-trivial = the window wraps (lb > ub) or a bound equals a time of day present in the index') % (
